@@ -64,3 +64,16 @@ Proof.
     repeat match goal with |- context [apply_opts ?x ?o] =>
       let A := fresh in destruct (apply_opts_ids o x) as [A _]; rewrite A; clear A end; reflexivity.
 Qed.
+
+(* ---------- source-derived obligation: the library's non-local writes ---------- *)
+From Errdef Require Import Gen.Effects Spec.EffectsAudit.
+
+(* What srcgen extracts from /repo now - every assignment, increment, delete, append-in-place
+   and reflect Set whose target is not a local or a value allocated in the same function, every
+   call of a mutating function with the object it is handed, and the bodies of the allocating
+   functions "fresh" relies on - equals the audited tables.  A new write into a shared
+   definition / fields map / error or into a caller-owned slice changes Gen/Effects.v. *)
+Theorem writes_audited :
+  effects_matched = true /\ write_sites = audited_write_sites /\
+  mutator_calls = audited_mutator_calls /\ fresh_sources = audited_fresh_sources.
+Proof. repeat split; reflexivity. Qed.
